@@ -168,12 +168,46 @@ def scan_effects(f, extra_self_ok=()):
     return out
 
 
+def _only_when_absent(f, node, key):
+    """the store `O[key] = ...` is reached only on paths on which `key in O` (or `key in O.data`) was tested and found false
+    (must-dataflow; the fact is established on a branch only if every way of taking that branch implies the key is absent)"""
+    from ..cfg import Branch
+    from ..pairing import alts_of
+    tgt = None
+    for t in ast.walk(node):
+        if isinstance(t, ast.Subscript) and isinstance(t.slice, ast.Constant) and t.slice.value == key and isinstance(t.ctx, ast.Store):
+            tgt = norm(t.value)
+    if tgt is None:
+        return None
+    wants = {"notin(%r,%s)" % (key, tgt), "notin(%r,%s.data)" % (key, tgt), "notin(%r,%s._data)" % (key, tgt)}
+    cfg = cfg_of(f.node)
+
+    def transfer(n, st):
+        if n.kind == "test":
+            out = {None: st}
+            for lab, pol in (("true", True), ("false", False)):
+                alts = alts_of(n.ast.test, pol)
+                out[lab] = st or (bool(alts) and all(wants & set(a) for a in alts))
+            return Branch(out)
+        return st
+    state = forward(cfg, False, transfer, lambda a, b: a and b, follow=lambda a_, b_, lab: lab != "exc")
+    stmt = node
+    for cn in cfg.nodes:
+        if cn.ast is stmt or (cn.ast is not None and any(x is node for x in ast.walk(cn.ast)) and cn.kind == "stmt"):
+            return bool(state.get(cn.id))
+    return None
+
+
 def _w1(ctx, R, name, cls, funcs):
     n = 0
     for f in funcs:
         for kind, node in scan_effects(f):
             n += 1
-            if kind in ALLOWED[name]:
+            if kind in ALLOWED[name] and kind == "setitem 'EDIF.identifier'" and _only_when_absent(f, node, "EDIF.identifier") is False:
+                R.bad("W1", "%s|%s|overwrite" % (f.key, kind), f.loc(node),
+                      "%s: `%s` can run when the element already carries an EDIF.identifier (no `'EDIF.identifier' in <element>` test excludes it on every "
+                      "path): the documented effect is recording a *generated* identifier, not replacing one the user or a reader gave" % (f.qualname, short(node, 60)))
+            elif kind in ALLOWED[name]:
                 # the netlist-name default must stay conditional on the name being absent
                 if kind == "store .name" and not any(isinstance(p, ast.If) and "name is None" in norm(p.test) for p in parent_chain(node)):
                     R.bad("W1", "%s|%s|unconditional" % (f.key, kind), f.loc(node), "%s: `%s` overwrites the netlist name unconditionally (documented: only an absent name is defaulted)" % (f.qualname, short(node, 60)))
